@@ -328,6 +328,44 @@ func init() {
 				if inclusion {
 					d := doc
 					if res, err := mongokit.Project(bsonkit.Clone(&d), &proj); err == nil {
+						// every plainly included path that exists in the document is in the result with the stored value
+						// (paths touched by an operator overlay at, below or above them are left to the other monitors)
+						for _, e := range proj {
+							flagOn := false
+							switch v := e.Value.(type) {
+							case bool:
+								flagOn = v
+							case bson.D:
+							default:
+								flagOn = bsonkit.Compare(v, int64(1)) == 0
+							}
+							if !flagOn || e.Key == "" || e.Key == "_id" {
+								continue
+							}
+							overlaid := false
+							for _, o := range proj {
+								// the same key given twice, or a parent/child pair: the later entry decides; not judged here
+								if &o != &e && (o.Key == e.Key && vj.Enc(o.Value) != vj.Enc(e.Value) || strings.HasPrefix(o.Key, e.Key+".") || strings.HasPrefix(e.Key, o.Key+".")) {
+									overlaid = true
+								}
+							}
+							for _, o := range proj {
+								if od, ok := o.Value.(bson.D); ok && len(od) > 0 && strings.HasPrefix(od[0].Key, "$") {
+									if o.Key == e.Key || strings.HasPrefix(o.Key, e.Key+".") || strings.HasPrefix(e.Key, o.Key+".") {
+										overlaid = true
+									}
+								}
+							}
+							if overlaid {
+								continue
+							}
+							if want := bsonkit.Get(&doc, e.Key); want != bsonkit.Missing {
+								if got := bsonkit.Get(res, e.Key); got == bsonkit.Missing || vj.Enc(got) != vj.Enc(want) {
+									c.Viols = append(viols, run.Violation{Property: "C14", What: "an included path that exists in the document is missing from (or differs in) the result", Witness: "project-missing-included", Req: req, Detail: e.Key})
+									return []run.Case{c}
+								}
+							}
+						}
 						for _, e := range *res {
 							if !requested[e.Key] {
 								c.Viols = append(viols, run.Violation{Property: "C14", What: "inclusion-style projection returns a field that was not requested", Witness: "project-extra-field", Req: req, Detail: e.Key})
